@@ -688,4 +688,92 @@ theorem tableRawOf_filter (a b c z : ℚ) (n f : ℕ) :
   refine List.flatMap_congr fun i _ => List.flatMap_congr fun j _ => List.flatMap_congr fun k _ => ?_
   by_cases h : f ≤ i + j + 2 * k <;> simp [h]
 
+/-! ### I. the tag law -/
+
+theorem r_eq_one_of_ind {P : Params} (hP : P.WF) (h : P.ind = 1) : P.r = 1 := by
+  have h1 := hP.r_sq
+  rw [h] at h1
+  nlinarith [hP.r_nonneg, hP.r_le]
+
+theorem p2_of_g2_zero {P : Params} (h : P.g2 = 0) : p2 P = 0 := by simp [p2, h]
+
+theorem partDist_false {P : Params} (h : partDist P = false) :
+    P.ind = 1 ∧ (P.dm = true → P.g2 = 0) := by
+  simp only [partDist, Bool.or_eq_false_iff, decide_eq_false_iff_not, not_not,
+    Bool.and_eq_false_iff] at h
+  refine ⟨h.1, fun hd => ?_⟩
+  rcases h.2 with h2 | h2
+  · simp [hd] at h2
+  · exact h2
+
+theorem tag_onePhotonRaw {P : Params} (hP : P.WF) (t : ℕ) (a b : ℚ) :
+    E (tagProd (tagW a b)) (onePhotonRaw P t) = tagGF P a b := by
+  by_cases hpd : partDist P = true
+  · unfold onePhotonRaw tagGF sigS
+    by_cases hdm : P.dm = true <;>
+      simp [hpd, hdm, E, tagProd, tagW, p0, p11, p21, p22, p1] <;> ring
+  · have hpd' : partDist P = false := by simpa using hpd
+    obtain ⟨hi, hg⟩ := partDist_false hpd'
+    have hr := r_eq_one_of_ind hP hi
+    unfold onePhotonRaw tagGF sigS
+    by_cases hdm : P.dm = true
+    · have h2 := p2_of_g2_zero (hg hdm)
+      simp [hpd', hdm, E, tagProd, tagW, p0, p11, p21, p22, p1, h2, hr]
+      ring
+    · simp [hpd', hdm, E, tagProd, tagW, p0, p11, p21, p22, p1, hr]
+      ring
+
+theorem tag_onePhoton {P : Params} (hP : P.WF) (t : ℕ) (a b : ℚ) :
+    E (tagProd (tagW a b)) (onePhoton P t) = tagGF P a b := by
+  rw [E_onePhoton hP, tag_onePhotonRaw hP]
+
+theorem tagGF_perfect {P : Params} (h : isPerfect P = true) (hP : P.WF) (a b : ℚ) :
+    tagGF P a b = a := by
+  obtain ⟨h1, h2, h3, h4⟩ := (isPerfect_iff P).mp h
+  have hr := r_eq_one_of_ind hP h3
+  simp [tagGF, sigS, p1, p2, h1, h2, h4, hr]
+
+theorem tagProd_replicate_none (a b : ℚ) (n : ℕ) :
+    tagProd (tagW a b) (List.replicate n none) = a ^ n := by
+  simp [tagProd, tagW]
+
+theorem tag_probDist {P : Params} (hP : P.WF) (n t : ℕ) (a b : ℚ) :
+    E (tagProd (tagW a b)) (probDist P 0 n t) = tagGF P a b ^ n := by
+  unfold probDist
+  by_cases hs : shortcut P n = true
+  · simp only [hs, if_true, E_cons, E_nil, one_mul, add_zero, tagProd_replicate_none]
+    simp only [shortcut, Bool.or_eq_true, decide_eq_true_eq] at hs
+    rcases hs with rfl | hp
+    · simp
+    · rw [tagGF_perfect hp hP]
+  · have hs' : shortcut P n = false := by simpa using hs
+    obtain ⟨hn, _⟩ := shortcut_false hs'
+    simp only [hs', Bool.false_eq_true, if_false]
+    rw [E_ltpMode_zero _ (tagProd_merge _) (tagProd_nil _) _ (photonDists_ne_nil P hn t)
+      (photonDists_NonNeg P n t)]
+    exact prod_photonDists P _ _ (fun t => tag_onePhoton hP t a b) n t
+
+theorem prodFrom_tag {P : Params} (hP : P.WF) (a b : ℚ) (k : ℕ) (ns : List ℕ) (t : ℕ) :
+    prodFrom (fun _ => tagProd (tagW a b)) k (modeDists P 0 ns t) = tagGF P a b ^ ns.sum := by
+  induction ns generalizing k t with
+  | nil => simp [modeDists, prodFrom]
+  | cons n ns ih => simp only [modeDists, prodFrom, tag_probDist hP, ih, List.sum_cons, pow_add]
+
+theorem tagProd_indicator (m : Mode) :
+    tagProd (tagW 1 0) m = if m.all commonTag then 1 else 0 := by
+  induction m with
+  | nil => simp [tagProd]
+  | cons tg m ih =>
+    have : tagProd (tagW 1 0) (tg :: m) = tagW 1 0 tg * tagProd (tagW 1 0) m := by simp [tagProd]
+    rw [this, ih]
+    rcases tg with _ | _ | k <;> simp [tagW, commonTag]
+
+theorem W_indicator (k : ℕ) (s : State) :
+    W (fun _ => tagProd (tagW 1 0)) k s = if allCommon s then 1 else 0 := by
+  induction s generalizing k with
+  | nil => simp [W, allCommon]
+  | cons m s ih =>
+    simp only [W, ih, tagProd_indicator, allCommon, List.all_cons]
+    by_cases h1 : m.all commonTag = true <;> simp [h1]
+
 end PM.C06
